@@ -1,4 +1,6 @@
 import B2Z.Proofs.RegionsRefine
+import B2Z.Proofs.RegionsPartition
+import B2Z.Proofs.RegionsOffsets
 /-! # C04 — index-derived region partitions cover every record exactly once
 
 Model: `B2Z.Regions` (`Model/Regions.lean`): `offsetsTbi` / `offsetsCsi` (the `offsets()` methods),
@@ -34,10 +36,11 @@ def Ordered (gs : List Reg) : Prop := gs.Pairwise (fun g g' => g.hi ≤ g'.lo)
 /-- the selection step: the selected entries are strictly increasing and start with entry 0 -/
 theorem select_strict (offs : List Off) (n t : Nat) (hn : 1 ≤ n)
     (hmono : (offs.map (·.off)).Pairwise (· ≤ ·))
-    (hkey : offs.Pairwise (fun a b => a.off < b.off → okey a < okey b)) (hne : offs ≠ []) :
+    (hkey : offs.Pairwise (fun a b => a.off < b.off → okey a < okey b)) (hne : offs ≠ [])
+    (hpos : ∀ o ∈ offs, o.pos < M) :
     (selectEntries offs n t).Pairwise Entry.lt ∧
-    (selectEntries offs n t).head? = (offs.head?).map (fun o => ({ contig := o.contig, pos := o.pos } : Entry)) := by
-  sorry
+    (selectEntries offs n t).head? = (offs.head?).map (fun o => ({ contig := o.contig, pos := o.pos } : Entry)) :=
+  ⟨selectEntries_strict offs n t hmono hkey hpos, selectEntries_head offs n t hn hne⟩
 
 /-- **C04** (core): for every request that the code accepts, the emitted regions read back every
     record exactly once in file order, none is empty, and they are ordered and non-overlapping -/
@@ -48,7 +51,40 @@ theorem C04_tiling (recs : List Rec) (nContigs : Nat) (hasRecs : Nat → Bool)
     (fileLen : Nat) (numParts targetSize : Option Nat) (gs : List Reg)
     (h : partition recs offs fileLen numParts targetSize nContigs hasRecs = some gs) :
     gs.flatMap (query recs) = recs ∧ (∀ g ∈ gs, query recs g ≠ []) ∧ Ordered gs := by
-  sorry
+  unfold partition at h
+  obtain ⟨raw, hraw, rfl⟩ := Option.map_eq_some_iff.mp h
+  obtain ⟨n, t, hn, hne, rfl⟩ := partitionRaw_some offs fileLen numParts targetSize nContigs hasRecs raw hraw
+  have hrecOK : ∀ r ∈ recs, RecOK r := fun r hr => (hrecs r hr).1
+  have hsel := select_strict offs n t hn hok.offs_mono hok.key_mono hok.nonempty
+    (fun o ho => (hok.entry_ok o ho).2.1)
+  -- every selected entry is an index entry
+  have hentry : ∀ e ∈ selectEntries offs n t, EntryOK e ∧ e.contig < nContigs := by
+    intro e he
+    obtain ⟨o, ho, rfl⟩ := mem_selectEntries offs n t e he
+    have := hok.entry_ok o ho
+    exact ⟨⟨this.1, this.2.1⟩, this.2.2⟩
+  have hEOK : ∀ e ∈ selectEntries offs n t, EntryOK e := fun e he => (hentry e he).1
+  -- the first selected entry is the first index entry
+  have hfirst : ∀ r ∈ recs, ekey ((selectEntries offs n t).head hne) ≤ key r := by
+    intro r hr
+    have hh : (selectEntries offs n t).head? = some ((selectEntries offs n t).head hne) :=
+      List.head?_eq_some_head hne
+    rw [hsel.2] at hh
+    cases ho : offs.head? with
+    | none => rw [ho] at hh; simp at hh
+    | some o =>
+      rw [ho] at hh
+      simp only [Option.map_some, Option.some.injEq] at hh
+      have := hok.first_le o ho r hr
+      rw [← hh]
+      exact this
+  have hcover := C04_cover recs hrecOK hs (selectEntries offs n t) hne hEOK hsel.1 nContigs hasRecs
+    (hentry _ (List.getLast_mem hne)).2 hfirst (fun r hr => (hrecs r hr).2)
+    (fun r hr _ => hok.counts r hr)
+  have hfin := final_flatMap recs hs hrecOK
+    (regions (selectEntries offs n t) ((selectEntries offs n t).getLast hne).contig nContigs hasRecs)
+  refine ⟨by rw [hfin.1, hcover], hfin.2, ?_⟩
+  exact finalRegions_ordered recs _ (regions_ordered _ hne hEOK hsel.1 nContigs hasRecs)
 
 /-- the code does not raise on a valid request (`num_parts ≥ 1` or target size `≥ 1`) -/
 theorem C04_no_error (recs : List Rec) (nContigs : Nat) (hasRecs : Nat → Bool)
@@ -57,13 +93,32 @@ theorem C04_no_error (recs : List Rec) (nContigs : Nat) (hasRecs : Nat → Bool)
     (hreq : (∃ n, numParts = some n ∧ targetSize = none ∧ 1 ≤ n) ∨
             (∃ t, numParts = none ∧ targetSize = some t ∧ 1 ≤ t ∧ 1 ≤ fileLen)) :
     partition recs offs fileLen numParts targetSize nContigs hasRecs ≠ none := by
-  sorry
+  obtain ⟨n, t, hp, hn⟩ := partsOf_valid fileLen numParts targetSize hreq
+  have hsel := select_strict offs n t hn hok.offs_mono hok.key_mono hok.nonempty
+    (fun o ho => (hok.entry_ok o ho).2.1)
+  have hne : selectEntries offs n t ≠ [] := by
+    intro hnil
+    have h2 := hsel.2
+    rw [hnil] at h2
+    cases hoffs : offs with
+    | nil => exact hok.nonempty hoffs
+    | cons o os => rw [hoffs] at h2; simp at h2
+  have hpos : ∀ e ∈ selectEntries offs n t, 1 ≤ e.pos := by
+    intro e he
+    obtain ⟨o, ho, rfl⟩ := mem_selectEntries offs n t e he
+    exact (hok.entry_ok o ho).1
+  have hraw := partitionRaw_ne_none offs fileLen numParts targetSize nContigs hasRecs n t hp hne hpos hsel.1
+  unfold partition
+  intro hnone
+  exact hraw (Option.map_eq_none_iff.mp hnone)
 
 /-- tabix: the linear-index entries are strictly increasing in (contig, position) whatever the
     offsets are, so `key_mono` holds for every tabix index -/
 theorem C04_tabix_key_mono (interval : Nat) (hiv : 0 < interval) (linear : List (List Nat)) :
     (offsetsTbi interval linear).Pairwise (fun a b => okey a < okey b ∨ ¬ (∀ o ∈ offsetsTbi interval linear, o.pos < M)) := by
-  sorry
+  by_cases hall : ∀ o ∈ offsetsTbi interval linear, o.pos < M
+  · exact (tbi_strict interval hiv linear hall).imp (fun h => Or.inl h)
+  · exact List.pairwise_of_forall_mem_list (fun _ _ _ _ => Or.inr hall)
 
 /-- CSI, the htslib invariant: within a contig a strictly larger `loffset` belongs to a bin that
     starts strictly later -/
@@ -72,14 +127,61 @@ def CsiBinsOK (minShift depth : Nat) (bs : List Bin) : Prop :=
 
 /-- CSI: with the `(loffset, first locus)` sort key, within every contig the offsets are
     non-decreasing and a strictly larger offset means a strictly larger position -/
-theorem C04_csi_contig (minShift depth : Nat) (bs : List Bin) (c : Nat) (hok : CsiBinsOK minShift depth bs) :
+theorem C04_csi_contig (minShift depth : Nat) (bs : List Bin) (c : Nat) (hok : CsiBinsOK minShift depth bs)
+    (hlo : ∀ b ∈ bs, b.loffset < 18446744073709551616) :
     let offs := offsetsCsi true minShift depth (List.replicate c [] ++ [bs])
     (offs.map (·.off)).Pairwise (· ≤ ·) ∧ offs.Pairwise (fun a b => a.off < b.off → a.pos < b.pos) ∧
     (∀ o ∈ offs, o.contig = c) ∧
     -- the first entry is the earliest-starting bin among those with the smallest loffset
     (∀ o, offs.head? = some o → ∀ b ∈ bs, b.bin ≠ firstBinInLevel (depth + 1) + 1 →
         (∀ b' ∈ bs, b.loffset ≤ b'.loffset) → o.pos ≤ firstLocus minShift depth b.bin) := by
-  sorry
+  intro offs
+  have hoffs : offs = (csiSel true minShift depth bs).map (csiOff minShift depth c) :=
+    offsetsCsi_single true minShift depth bs c
+  have hmem := mem_csiSel true minShift depth bs
+  have hsorted := csiSel_sorted true minShift depth bs
+  rw [hoffs]
+  refine ⟨?_, ?_, ?_, ?_⟩
+  · -- offsets non-decreasing
+    rw [List.map_map, List.pairwise_map]
+    refine hsorted.imp_of_mem ?_
+    intro a b ha hb hab
+    have h1 := hlo a ((hmem a).mp ha).1
+    have h2 := hlo b ((hmem b).mp hb).1
+    simp only [lexLt, csiKey] at hab
+    simp only [Function.comp, csiOff]
+    omega
+  · -- a strictly larger offset is a strictly later first locus
+    apply List.pairwise_of_forall_mem_list
+    intro x hx y hy hxy
+    obtain ⟨a, ha, rfl⟩ := List.mem_map.mp hx
+    obtain ⟨b, hb, rfl⟩ := List.mem_map.mp hy
+    have ha' := ((hmem a).mp ha).1
+    have hb' := ((hmem b).mp hb).1
+    have h1 := hlo a ha'
+    have h2 := hlo b hb'
+    simp only [csiOff] at hxy ⊢
+    exact hok a ha' b hb' (by omega)
+  · intro o ho
+    obtain ⟨a, _, rfl⟩ := List.mem_map.mp ho
+    rfl
+  · intro o ho b hb hbin hmin
+    have hbsel : b ∈ csiSel true minShift depth bs := (hmem b).mpr ⟨hb, hbin⟩
+    cases hsel : csiSel true minShift depth bs with
+    | nil => rw [hsel] at ho; simp at ho
+    | cons b0 rest =>
+      rw [hsel] at ho hbsel hsorted
+      simp only [List.map_cons, List.head?_cons, Option.some.injEq] at ho
+      subst ho
+      simp only [csiOff]
+      rcases List.mem_cons.mp hbsel with rfl | hin
+      · exact Nat.le_refl _
+      · have h1 := (List.pairwise_cons.mp hsorted).1 b hin
+        have hb0 : b0 ∈ bs := ((hmem b0).mp (by rw [hsel]; simp)).1
+        have h2 := hmin b0 hb0
+        simp only [lexLt, csiKey] at h1
+        simp only [if_true] at h1
+        omega
 
 /-- finding F3 (fixed): two bins with equal `loffset`, the leaf stored before its ancestor. Sorting by
     `loffset` alone starts the first region at the leaf's first locus and loses the first record;
